@@ -449,7 +449,7 @@ def write_evidence(prop, pid, tier, seed, wall, fn_results, ob_list, n_check, n_
             'repo_tree_sha256_16': repo.tree_sha(),
             'clauses_only_bounded_or_undecided': list(prop.not_decided),
         },
-        'assumptions': list(prop.assumptions) + ['stdlib/builtin models used (T-LIB/T-FMT/T-TOK): ' + ', '.join(externs)]
+        'assumptions': list(prop.assumptions) + sorted(set(x for r in fn_results for x in getattr(r, 'ghost_assumptions', []))) + ['stdlib/builtin models used (T-LIB/T-FMT/T-TOK): ' + ', '.join(externs)]
                        + (['callee contracts assumed here and verified elsewhere or trusted: ' + ', '.join(assumed_contracts)] if assumed_contracts else [])
                        + (['callees inlined (verified as part of the caller): ' + ', '.join(inlined)] if inlined else []),
     }
